@@ -96,7 +96,7 @@ func RunOnce(t *testing.T, info *Info, sc *Scenario, verbose bool) (res *Result,
 						Detail: fmt.Sprintf("panic: %v\n%s", r, trimStack(debug.Stack()))}
 					return
 				}
-				panic(HarnessError{fmt.Sprintf("unexpected panic in %s run %d op %d: %v\n%s", sc.Property, sc.Run, ctx.CurOp, r, debug.Stack())})
+				panic(HarnessError{fmt.Sprintf("unexpected panic in %s run %d op %d: %v\n%s\noriginal stack:\n%s", sc.Property, sc.Run, ctx.CurOp, r, debug.Stack(), LastPanicStack)})
 			}
 		}()
 		v = info.Engine.Execute(t, ctx)
